@@ -67,3 +67,125 @@ impl kani::Arbitrary for crate::ids::InvalidQStreamId {
         crate::ids::InvalidQStreamId
     }
 }
+
+impl kani::Arbitrary for crate::frame::FrameKind {
+    /// Any *valid* kind (an `Exercise` id is a GREASE value).
+    fn any() -> Self {
+        use crate::frame::FrameKind::*;
+        match kani::any::<u8>() % 5 {
+            0 => Data,
+            1 => Headers,
+            2 => Settings,
+            3 => WebTransport,
+            _ => {
+                let v: VarInt = kani::any();
+                kani::assume(spec::is_grease(v.into_inner()));
+                Exercise(v)
+            }
+        }
+    }
+}
+
+impl kani::Arbitrary for crate::stream_header::StreamKind {
+    fn any() -> Self {
+        use crate::stream_header::StreamKind::*;
+        match kani::any::<u8>() % 5 {
+            0 => Control,
+            1 => QPackEncoder,
+            2 => QPackDecoder,
+            3 => WebTransport,
+            _ => {
+                let v: VarInt = kani::any();
+                kani::assume(spec::is_grease(v.into_inner()));
+                Exercise(v)
+            }
+        }
+    }
+}
+
+impl kani::Arbitrary for crate::settings::SettingId {
+    fn any() -> Self {
+        use crate::settings::SettingId::*;
+        match kani::any::<u8>() % 8 {
+            0 => QPackMaxTableCapacity,
+            1 => MaxFieldSectionSize,
+            2 => QPackBlockedStreams,
+            3 => EnableConnectProtocol,
+            4 => H3Datagram,
+            5 => EnableWebTransport,
+            6 => WebTransportMaxSessions,
+            _ => {
+                let v: VarInt = kani::any();
+                kani::assume(spec::is_grease(v.into_inner()));
+                Exercise(v)
+            }
+        }
+    }
+}
+
+impl kani::Arbitrary for crate::error::ErrorCode {
+    fn any() -> Self {
+        use crate::error::ErrorCode::*;
+        match kani::any::<u8>() % 15 {
+            0 => Datagram,
+            1 => NoError,
+            2 => StreamCreation,
+            3 => ClosedCriticalStream,
+            4 => FrameUnexpected,
+            5 => Frame,
+            6 => ExcessiveLoad,
+            7 => Id,
+            8 => Settings,
+            9 => MissingSettings,
+            10 => RequestRejected,
+            11 => Message,
+            12 => Decompression,
+            13 => BufferedStreamRejected,
+            _ => SessionGone,
+        }
+    }
+}
+
+// ---- oracle-mode generators (see oracle.rs): `Exercise` ids satisfy the uninterpreted predicate ----
+
+fn grease_id_g() -> VarInt {
+    let v: VarInt = kani::any();
+    kani::assume(super::oracle::grease(v.into_inner()));
+    v
+}
+
+pub fn any_frame_kind_g() -> crate::frame::FrameKind {
+    use crate::frame::FrameKind::*;
+    match kani::any::<u8>() % 5 {
+        0 => Data,
+        1 => Headers,
+        2 => Settings,
+        3 => WebTransport,
+        _ => Exercise(grease_id_g()),
+    }
+}
+
+pub fn any_stream_kind_g() -> crate::stream_header::StreamKind {
+    use crate::stream_header::StreamKind::*;
+    match kani::any::<u8>() % 5 {
+        0 => Control,
+        1 => QPackEncoder,
+        2 => QPackDecoder,
+        3 => WebTransport,
+        _ => Exercise(grease_id_g()),
+    }
+}
+
+pub fn any_setting_id_g() -> crate::settings::SettingId {
+    use crate::settings::SettingId::*;
+    match kani::any::<u8>() % 8 {
+        0 => QPackMaxTableCapacity,
+        1 => MaxFieldSectionSize,
+        2 => QPackBlockedStreams,
+        3 => EnableConnectProtocol,
+        4 => H3Datagram,
+        5 => EnableWebTransport,
+        6 => WebTransportMaxSessions,
+        _ => Exercise(grease_id_g()),
+    }
+}
